@@ -15,11 +15,16 @@ const StdEntry = "func §E() { drv.Run[int](func() drv.It[int] { it := §gen(); 
 // G builds a standard program: one int generator with the given body, drained
 // by the standard consumer.
 func G(name, body string, features ...string) *e1.Program {
-	return &e1.Program{
+	p := &e1.Program{
 		Name:     "d:" + name,
 		Neutral:  "func §gen() ITER[int] GEN[int]{\n" + indent(body) + "}GEN\n" + StdEntry,
 		Features: features,
 	}
+	if strings.Contains(body, "pairOf(") {
+		// a two-result helper (needed by cases about multi-value assignment)
+		p.Neutral = strings.Replace(p.Neutral, "pairOf(", "§pairOf(", -1) + "func §pairOf(x int) (int, int) { return x + 1, x * 2 }\n"
+	}
+	return p
 }
 
 // Raw builds a program from complete neutral declarations (must define §E).
